@@ -192,6 +192,7 @@ package graph
 //@ func (s Kinds) ContainsOneOf(others ...Kind) bool
 //@   nomod
 //@   ensures single: len(others) == 1 && others[0] != nil ==> result == (others[0] in set(s))
+//@   ensures absent: len(others) == 1 && others[0] != nil && !result ==> (forall i int :: {:pattern s[i]} 0 <= i && i < len(s) ==> s[i] != others[0])
 //@   loop 0
 //@     invariant range: -1 <= rangeindex
 //@     invariant notYet: len(others) == 1 && others[0] != nil ==> (forall i int :: 0 <= i && i <= rangeindex ==> s[i] != others[0])
